@@ -274,6 +274,11 @@ func freshBody(c *an.Ctx, v ssa.Value) (bool, string) {
 		switch x := o.(type) {
 		case *ssa.MakeSlice:
 			continue
+		case *ssa.Const:
+			if x.IsNil() {
+				continue // a nil body aliases nothing (the error arm of a helper that returns (nil, err))
+			}
+			return false, o.String()
 		case *ssa.Extract:
 			if call, ok := x.Tuple.(*ssa.Call); ok {
 				if an.StdCallee(call, "io", "ReadAll") || an.StdCallee(call, "io/ioutil", "ReadAll") || an.StdCallee(call, "bufio", "(*Reader).ReadBytes") {
